@@ -14,24 +14,26 @@ structure HQ (s s' : St) : Prop where
   lastHits : s'.lastHits = s.lastHits
   mouse : s'.mouse = s.mouse
   lastFrame : s'.lastFrame = s.lastFrame
+  pinv : PathInv s → PathInv s'
 
-theorem HQ.refl (s : St) : HQ s s := ⟨⟨[], by simp, by intro e he; cases he⟩, rfl, rfl, rfl⟩
+theorem HQ.refl (s : St) : HQ s s := ⟨⟨[], by simp, by intro e he; cases he⟩, rfl, rfl, rfl, id⟩
 
 theorem HQ.trans {a b c : St} (h1 : HQ a b) (h2 : HQ b c) : HQ a c := by
-  obtain ⟨⟨t1, e1, q1⟩, l1, m1, f1⟩ := h1
-  obtain ⟨⟨t2, e2, q2⟩, l2, m2, f2⟩ := h2
-  refine ⟨⟨t1 ++ t2, by rw [e2, e1, List.append_assoc], ?_⟩, l2.trans l1, m2.trans m1, f2.trans f1⟩
+  obtain ⟨⟨t1, e1, q1⟩, l1, m1, f1, i1⟩ := h1
+  obtain ⟨⟨t2, e2, q2⟩, l2, m2, f2, i2⟩ := h2
+  refine ⟨⟨t1 ++ t2, by rw [e2, e1, List.append_assoc], ?_⟩, l2.trans l1, m2.trans m1, f2.trans f1,
+    fun h => i2 (i1 h)⟩
   intro e he
   rcases List.mem_append.mp he with h | h
   · exact q1 e h
   · exact q2 e h
 
 theorem HQ.of_ext {s s' : St} (h1 : Ext .mouseEnter s s') (h2 : Ext .mouseLeave s s') : HQ s s' := by
-  obtain ⟨⟨t1, e1, q1, _, _⟩, _, _, lf, lh, m⟩ := h1
-  obtain ⟨⟨t2, e2, q2, _, _⟩, _, _, _, _, _⟩ := h2
+  obtain ⟨⟨t1, e1, q1, _, _⟩, _, _, lf, lh, m, pi⟩ := h1
+  obtain ⟨⟨t2, e2, q2, _, _⟩, _, _, _, _, _, _⟩ := h2
   have : t1 = t2 := List.append_cancel_left (e1.symm.trans e2)
   subst this
-  exact ⟨⟨t1, e1, fun e he => ⟨q1 e he, q2 e he⟩⟩, lh, m, lf⟩
+  exact ⟨⟨t1, e1, fun e he => ⟨q1 e he, q2 e he⟩⟩, lh, m, lf, pi⟩
 
 theorem routable_enter : Routable .mouseEnter := ⟨by simp, by simp⟩
 theorem routable_leave : Routable .mouseLeave := ⟨by simp, by simp⟩
@@ -51,7 +53,7 @@ theorem hq_offer (o : Oracle) (fuel : Nat) (s : St) (w : Id) (e : Ev) (ph : Phas
   have h := (hq_call o s w e ph h1 h2).trans (hq_handleCommand o fuel _ (Model.Vxfw.call o s w e ph).2)
   simp only [offer]
   split
-  · exact ⟨h.ex, h.lastHits, h.mouse, h.lastFrame⟩
+  · exact ⟨h.ex, h.lastHits, h.mouse, h.lastFrame, fun hp => PathInv.congr rfl rfl rfl rfl (h.pinv hp)⟩
   · exact h
 
 theorem hq_capture (o : Oracle) (fuel : Nat) (e : Ev) (h1 : e ≠ .mouseEnter) (h2 : e ≠ .mouseLeave)
@@ -78,7 +80,8 @@ theorem hq_bubble (o : Oracle) (fuel : Nat) (e : Ev) (h1 : e ≠ .mouseEnter) (h
 
 theorem hq_dispatch (o : Oracle) (fuel : Nat) (chain : List Id) (tgt : St → Id) (e : Ev)
     (h1 : e ≠ .mouseEnter) (h2 : e ≠ .mouseLeave) (s : St) : HQ s (dispatch o fuel chain tgt e s) := by
-  have h0 : HQ s { s with consume := false } := ⟨⟨[], by simp, by intro e he; cases he⟩, rfl, rfl, rfl⟩
+  have h0 : HQ s { s with consume := false } :=
+    ⟨⟨[], by simp, by intro e he; cases he⟩, rfl, rfl, rfl, PathInv.congr rfl rfl rfl rfl⟩
   have hc := h0.trans (hq_capture o fuel e h1 h2 chain { s with consume := false })
   simp only [dispatch]
   split
@@ -89,13 +92,12 @@ theorem hq_dispatch (o : Oracle) (fuel : Nat) (chain : List Id) (tgt : St → Id
     · exact ht.trans (hq_bubble o fuel e h1 h2 _ _)
 
 theorem hq_updatePath (o : Oracle) (fuel : Nat) (s : St) (t : STree) : HQ s (updatePath o fuel s t) := by
+  have h0 : HQ s (findPath { s with fhFrame := some t }).1 :=
+    ⟨⟨[], by simp [findPath], by intro e he; cases he⟩, rfl, rfl, rfl, fun _ => pathInv_findPath _⟩
   simp only [updatePath]
   split
-  · exact ⟨⟨[], by simp [updatePathFinish], by intro e he; cases he⟩, rfl, rfl, rfl⟩
-  · have h0 : HQ s { s with path := [] } := ⟨⟨[], by simp, by intro e he; cases he⟩, rfl, rfl, rfl⟩
-    have h := h0.trans (hq_focusWidget o fuel { s with path := [] } s.root)
-    exact ⟨by simpa [updatePathFinish] using h.ex, by simpa [updatePathFinish] using h.lastHits,
-      by simpa [updatePathFinish] using h.mouse, by simpa [updatePathFinish] using h.lastFrame⟩
+  · exact h0
+  · exact h0.trans (hq_focusWidget o fuel _ s.root)
 
 /-! ### hoverRun -/
 
@@ -154,7 +156,7 @@ def HovInv (s : St) : Prop :=
 
 theorem HovInv.of_hq {s s' : St} (h : HQ s s') (hi : HovInv s) : HovInv s' := by
   obtain ⟨hs, hr, nd, ndl, hm⟩ := hi
-  obtain ⟨⟨t, et, qt⟩, lh, _, _⟩ := h
+  obtain ⟨⟨t, et, qt⟩, lh, _, _, _⟩ := h
   refine ⟨hs, ?_, nd, by rw [lh]; exact ndl, by rw [lh]; exact hm⟩
   rw [et, hoverRun_append _ _ _ _ hr]
   exact hoverRun_quiet hs t qt
@@ -162,7 +164,7 @@ theorem HovInv.of_hq {s s' : St} (h : HQ s s') (hi : HovInv s) : HovInv s' := by
 theorem notify_hover (o : Oracle) (fuel : Nat) (s : St) (w : Id) (ev : Ev) :
     ∃ t, (notify o fuel s w ev).trace = s.trace ++ (.call w ev .target :: t) ∧ HQuiet t ∧
       (notify o fuel s w ev).lastHits = s.lastHits ∧ (notify o fuel s w ev).mouse = s.mouse := by
-  obtain ⟨⟨t, et, qt⟩, lh, m, _⟩ := hq_handleCommand o fuel (Model.Vxfw.call o s w ev .target).1
+  obtain ⟨⟨t, et, qt⟩, lh, m, _, _⟩ := hq_handleCommand o fuel (Model.Vxfw.call o s w ev .target).1
     (Model.Vxfw.call o s w ev .target).2
   refine ⟨t, ?_, qt, lh, m⟩
   simp only [notify]
@@ -359,10 +361,9 @@ theorem HovInv.of_exit (o : Oracle) (fuel : Nat) (s : St) (hi : HovInv s) : HovI
 
 /-! ### the Run loop -/
 
-/-- Steps that are not a terminal FocusIn, and whose trees have duplicate-free hit lists (before
-and after render's sort). -/
+/-- Steps whose trees have duplicate-free hit lists (before and after render's sort); any event. -/
 def StepOk : Step → Prop
-  | .ev e => e ≠ .focusIn
+  | .ev _ => True
   | .frame t1 t2 => HitsNodup t1 ∧ HitsNodup (sortTree t1) ∧ HitsNodup (sortTree t2)
 
 /-- `lastFrame` has duplicate-free hit lists. -/
@@ -401,13 +402,56 @@ theorem hov_mouseHandleEvent (o : Oracle) (fuel : Nat) (s : St) (c r : Int) (hf 
     have h := hq_dispatch o fuel (s1.lastHits.map (·.w)) (fun _ => tg.w) (.mouse c r) (by simp) (by simp) s1
     exact ⟨HovInv.of_hq h hu, h.lastFrame.trans hlf⟩
 
-theorem hov_runEvent (o : Oracle) (fuel : Nat) (s : St) (e : RunEv) (he : e ≠ .focusIn)
+theorem any_w_iff (l : List Hit) (w : Id) : (l.any (fun h => h.w == w)) = true ↔ w ∈ l.map Hit.w := by
+  simp only [List.any_eq_true, List.mem_map, beq_iff_eq]
+
+/-- `mouseHandler.mouseEnter` keeps the hover invariant: the widget is notified only if it is not
+entered, and is recorded in the hit list. -/
+theorem HovInv.of_enter (o : Oracle) (fuel : Nat) (s : St) (w : Id) (hi : HovInv s) :
+    HovInv (mouseEnter o fuel s w) := by
+  simp only [mouseEnter]
+  split
+  · exact hi
+  · rename_i hnot
+    have hnm : w ∉ s.lastHits.map Hit.w := fun h => hnot ((any_w_iff _ _).mpr h)
+    obtain ⟨hs, hr, nd, ndl, hmem⟩ := hi
+    have hnh : w ∉ hs := fun h => hnm ((hmem w).mp h)
+    obtain ⟨t, et, qt, lh, _⟩ := notify_hover o fuel { s with lastHits := s.lastHits ++ [⟨0, 0, w⟩] } w .mouseEnter
+    refine ⟨w :: hs, ?_, List.nodup_cons.mpr ⟨hnh, nd⟩, ?_, ?_⟩
+    · rw [et]
+      show hoverRun [] (s.trace ++ _) = _
+      rw [hoverRun_append _ _ _ _ hr]
+      simp only [hoverRun, List.contains_iff_mem, hnh, if_false]
+      exact hoverRun_quiet _ t qt
+    · rw [lh]
+      simp only [List.map_append, List.map_cons, List.map_nil]
+      exact List.nodup_append.mpr ⟨ndl, by simp, by
+        intro a ha b hb
+        simp only [List.mem_singleton] at hb
+        subst hb
+        exact fun h => hnm (h ▸ ha)⟩
+    · intro x
+      rw [lh]
+      simp only [List.map_append, List.map_cons, List.map_nil, List.mem_append, List.mem_cons,
+        List.not_mem_nil, or_false]
+      rw [hmem x]
+      exact or_comm
+
+theorem mouseEnter_lastFrame (o : Oracle) (fuel : Nat) (s : St) (w : Id) :
+    (mouseEnter o fuel s w).lastFrame = s.lastFrame := by
+  simp only [mouseEnter]
+  split
+  · rfl
+  · exact notify_lastFrame o fuel _ w .mouseEnter
+
+theorem hov_runEvent (o : Oracle) (fuel : Nat) (s : St) (e : RunEv)
     (hf : FrameOk s) (hi : HovInv s) :
     HovInv (runEvent o fuel s e) ∧ FrameOk (runEvent o fuel s e) := by
   cases e with
   | resize => exact ⟨hi, hf⟩
   | redraw => exact ⟨hi, hf⟩
-  | focusIn => exact absurd rfl he
+  | focusIn =>
+    exact ⟨HovInv.of_enter o fuel s s.root hi, by simpa [FrameOk, runEvent, mouseEnter_lastFrame] using hf⟩
   | mouse c r =>
     obtain ⟨h1, h2⟩ := hov_mouseHandleEvent o fuel s c r hf hi
     exact ⟨h1, by simpa [FrameOk, runEvent, h2] using hf⟩
@@ -426,8 +470,9 @@ theorem hov_runEvent (o : Oracle) (fuel : Nat) (s : St) (e : RunEv) (he : e ≠ 
     exact ⟨HovInv.of_hq h hi, by simpa [FrameOk, runEvent, handleEvent, h.lastFrame] using hf⟩
 
 theorem hq_draw (s : St) (f : St → St) (hf : ∀ s, (f s).trace = s.trace ++ [.draw] ∧ (f s).lastHits = s.lastHits ∧
-    (f s).mouse = s.mouse ∧ (f s).lastFrame = s.lastFrame) : HQ s (f s) :=
-  ⟨⟨[.draw], (hf s).1, by intro e he; simp at he; subst he; simp [isRouted]⟩, (hf s).2.1, (hf s).2.2.1, (hf s).2.2.2⟩
+    (f s).mouse = s.mouse ∧ (f s).lastFrame = s.lastFrame)
+    (hp : ∀ s, PathInv s → PathInv (f s)) : HQ s (f s) :=
+  ⟨⟨[.draw], (hf s).1, by intro e he; simp at he; subst he; simp [isRouted]⟩, (hf s).2.1, (hf s).2.2.1, (hf s).2.2.2, hp s⟩
 
 theorem hov_runFrame (o : Oracle) (fuel : Nat) (s : St) (t1 t2 : STree) (hok : StepOk (.frame t1 t2))
     (hf : FrameOk s) (hi : HovInv s) :
@@ -437,17 +482,17 @@ theorem hov_runFrame (o : Oracle) (fuel : Nat) (s : St) (t1 t2 : STree) (hok : S
   split
   · exact ⟨hi, hf⟩
   · have ha : HQ s { s with redraw := false, trace := s.trace ++ [.draw] } :=
-      hq_draw s (fun s => { s with redraw := false, trace := s.trace ++ [.draw] }) (fun s => ⟨rfl, rfl, rfl, rfl⟩)
+      hq_draw s (fun s => { s with redraw := false, trace := s.trace ++ [.draw] }) (fun s => ⟨rfl, rfl, rfl, rfl⟩) (fun s => PathInv.congr rfl rfl rfl rfl)
     have hia := HovInv.of_hq ha hi
     have hu := (mouseUpdate_inv o fuel _ t1 ok1 hia).1
     generalize mouseUpdate o fuel { s with redraw := false, trace := s.trace ++ [.draw] } t1 = s1 at hu
     by_cases hr : s1.redraw = true
     · simp only [hr, if_true]
       have hb : HQ s1 { s1 with redraw := false, trace := s1.trace ++ [.draw] } :=
-        hq_draw s1 (fun s => { s with redraw := false, trace := s.trace ++ [.draw] }) (fun s => ⟨rfl, rfl, rfl, rfl⟩)
+        hq_draw s1 (fun s => { s with redraw := false, trace := s.trace ++ [.draw] }) (fun s => ⟨rfl, rfl, rfl, rfl⟩) (fun s => PathInv.congr rfl rfl rfl rfl)
       have hc : HQ { s1 with redraw := false, trace := s1.trace ++ [.draw] }
           { s1 with redraw := false, trace := s1.trace ++ [.draw], refresh := false, debug := false } :=
-        ⟨⟨[], by simp, by intro e he; cases he⟩, rfl, rfl, rfl⟩
+        ⟨⟨[], by simp, by intro e he; cases he⟩, rfl, rfl, rfl, PathInv.congr rfl rfl rfl rfl⟩
       have hd := hq_updatePath o fuel
         { s1 with redraw := false, trace := s1.trace ++ [.draw], refresh := false, debug := false } (sortTree t2)
       have hall := (hb.trans hc).trans hd
@@ -457,7 +502,7 @@ theorem hov_runFrame (o : Oracle) (fuel : Nat) (s : St) (t1 t2 : STree) (hok : S
     · have hrf : s1.redraw = false := by simpa using hr
       simp only [hrf]
       have hc : HQ s1 { s1 with refresh := false, debug := false } :=
-        ⟨⟨[], by simp, by intro e he; cases he⟩, rfl, rfl, rfl⟩
+        ⟨⟨[], by simp, by intro e he; cases he⟩, rfl, rfl, rfl, PathInv.congr rfl rfl rfl rfl⟩
       have hd := hq_updatePath o fuel { s1 with refresh := false, debug := false } (sortTree t1)
       have hall := hc.trans hd
       refine ⟨?_, ok1s⟩
@@ -472,7 +517,7 @@ theorem hov_runInit (o : Oracle) (fuel : Nat) (root : Id) (t0 : STree) (h0 : Hit
   simp only [runInit, handleEvent]
   generalize dispatch o fuel (St.init root).path (fun s => s.focused) .init (St.init root) = s1 at hi1
   have hb : HQ s1 { s1 with trace := s1.trace ++ [.draw] } :=
-    hq_draw s1 (fun s => { s with trace := s.trace ++ [.draw] }) (fun s => ⟨rfl, rfl, rfl, rfl⟩)
+    hq_draw s1 (fun s => { s with trace := s.trace ++ [.draw] }) (fun s => ⟨rfl, rfl, rfl, rfl⟩) (fun s => PathInv.congr rfl rfl rfl rfl)
   have hx := HovInv.of_hq hb hi1
   exact ⟨hx, h0⟩
 
@@ -493,7 +538,7 @@ theorem hov_runSteps (o : Oracle) (fuel : Nat) (steps : List Step) (hs : ∀ st 
     have hrest : ∀ st ∈ rest, StepOk st := fun x hx => hs x (by simp [hx])
     cases st with
     | ev e =>
-      obtain ⟨h1, h2⟩ := hov_runEvent o fuel s e hst hf hi
+      obtain ⟨h1, h2⟩ := hov_runEvent o fuel s e hf hi
       rw [runSteps_ev]
       by_cases hq : (runEvent o fuel s e).quit = true
       · rw [if_pos hq]; exact ⟨h1, h2⟩
@@ -503,6 +548,103 @@ theorem hov_runSteps (o : Oracle) (fuel : Nat) (steps : List Step) (hs : ∀ st 
       rw [runSteps_frame]
       exact ih hrest _ h2 h1
 
+
+/-! ### the path invariant over the Run loop -/
+
+theorem pinv_notify (o : Oracle) (fuel : Nat) (s : St) (w : Id) (ev : Ev) (h1 : ev ≠ .init)
+    (hp : PathInv s) : PathInv (notify o fuel s w ev) := by
+  have h := (Ext.call o (ev := .init) s w ev .target h1).trans
+    (ext_handleCommand ⟨by simp, by simp⟩ o fuel _ (Model.Vxfw.call o s w ev .target).2)
+  exact h.pinv hp
+
+theorem foldl_pinv {α : Type} (f : St → α → St) (hf : ∀ s a, PathInv s → PathInv (f s a))
+    (l : List α) (s : St) (hp : PathInv s) : PathInv (l.foldl f s) := by
+  induction l generalizing s with
+  | nil => exact hp
+  | cons a r ih => exact ih _ (hf s a hp)
+
+theorem pinv_mouseUpdate (o : Oracle) (fuel : Nat) (s : St) (t : STree) (hp : PathInv s) :
+    PathInv (mouseUpdate o fuel s t) := by
+  simp only [mouseUpdate]
+  split
+  · exact hp
+  · refine PathInv.congr rfl rfl rfl rfl (foldl_pinv _ (fun s a h => ?_) _ _ (foldl_pinv _ (fun s a h => ?_) _ _ hp))
+    · split
+      · exact h
+      · exact pinv_notify o fuel s a.w .mouseEnter (by simp) h
+    · split
+      · exact h
+      · exact pinv_notify o fuel s a.w .mouseLeave (by simp) h
+
+theorem pinv_mouseExit (o : Oracle) (fuel : Nat) (s : St) (hp : PathInv s) : PathInv (mouseExit o fuel s) := by
+  simp only [mouseExit]
+  exact PathInv.congr rfl rfl rfl rfl
+    (foldl_pinv _ (fun s a h => pinv_notify o fuel s a.w .mouseLeave (by simp) h) _ _ hp)
+
+theorem pinv_mouseEnter (o : Oracle) (fuel : Nat) (s : St) (w : Id) (hp : PathInv s) :
+    PathInv (mouseEnter o fuel s w) := by
+  simp only [mouseEnter]
+  split
+  · exact hp
+  · exact pinv_notify o fuel _ w .mouseEnter (by simp) (PathInv.congr rfl rfl rfl rfl hp)
+
+theorem pinv_mouseHandleEvent (o : Oracle) (fuel : Nat) (s : St) (c r : Int) (hp : PathInv s) :
+    PathInv (mouseHandleEvent o fuel s c r) := by
+  have h1 : PathInv (mouseUpdate o fuel { s with mouse := some (c, r) } s.lastFrame) :=
+    pinv_mouseUpdate o fuel _ _ (PathInv.congr rfl rfl rfl rfl hp)
+  simp only [mouseHandleEvent]
+  generalize mouseUpdate o fuel { s with mouse := some (c, r) } s.lastFrame = s1 at h1
+  cases s1.lastHits.getLast? with
+  | none => exact h1
+  | some tg => exact (hq_dispatch o fuel _ _ (.mouse c r) (by simp) (by simp) s1).pinv h1
+
+theorem pinv_runEvent (o : Oracle) (fuel : Nat) (s : St) (e : RunEv) (hp : PathInv s) :
+    PathInv (runEvent o fuel s e) := by
+  cases e with
+  | resize => exact PathInv.congr rfl rfl rfl rfl hp
+  | redraw => exact PathInv.congr rfl rfl rfl rfl hp
+  | focusIn => exact pinv_mouseEnter o fuel s s.root hp
+  | mouse c r => exact pinv_mouseHandleEvent o fuel s c r hp
+  | focusOut => exact pinv_mouseExit o fuel _ (PathInv.congr rfl rfl rfl rfl hp)
+  | key k => exact (hq_dispatch o fuel s.path (fun s => s.focused) (.key k) (by simp) (by simp) s).pinv hp
+  | other k => exact (hq_dispatch o fuel s.path (fun s => s.focused) (.custom k) (by simp) (by simp) s).pinv hp
+
+theorem pinv_updatePath_frame (o : Oracle) (fuel : Nat) (s : St) (t t' : STree) :
+    PathInv { updatePath o fuel s t with lastFrame := t' } :=
+  PathInv.congr (s := updatePath o fuel s t) rfl rfl rfl rfl (pathInv_updatePath o fuel s t).1
+
+theorem pinv_runFrame (o : Oracle) (fuel : Nat) (s : St) (t1 t2 : STree) (hp : PathInv s) :
+    PathInv (runFrame o fuel s t1 t2) := by
+  simp only [runFrame]
+  split
+  · exact hp
+  · exact pinv_updatePath_frame o fuel _ _ _
+
+theorem updatePath_root (o : Oracle) (fuel : Nat) (s : St) (t : STree) : (updatePath o fuel s t).root = s.root := by
+  simp only [updatePath]
+  split
+  · rfl
+  · exact (focusWidget_ext (ev := .init) ⟨by simp, by simp⟩ o fuel _ s.root).root
+
+theorem pinv_runInit (o : Oracle) (fuel : Nat) (root : Id) (t : STree) : PathInv (runInit o fuel root t) := by
+  have h0 : PathInv (St.init root) := rfl
+  have h := (hq_dispatch o fuel (St.init root).path (fun s => s.focused) .init (by simp) (by simp) (St.init root)).pinv h0
+  exact PathInv.congr rfl rfl rfl rfl h
+
+theorem pinv_runSteps (o : Oracle) (fuel : Nat) (steps : List Step) (s : St) (hp : PathInv s) :
+    PathInv (runSteps o fuel s steps) := by
+  induction steps generalizing s with
+  | nil => exact hp
+  | cons st rest ih =>
+    cases st with
+    | ev e =>
+      rw [runSteps_ev]
+      split
+      · exact pinv_runEvent o fuel s e hp
+      · exact ih _ (pinv_runEvent o fuel s e hp)
+    | frame t1 t2 =>
+      rw [runSteps_frame]
+      exact ih _ (pinv_runFrame o fuel s t1 t2 hp)
 
 /-! ### trees that draw each widget at most once -/
 
@@ -580,14 +722,14 @@ end
 theorem hitsNodup_sortTree (t : STree) (h : (ids t).Nodup) : HitsNodup (sortTree t) :=
   hitsNodup_of_ids _ ((ids_sortTree t).symm.nodup h)
 
-/-- A history whose trees draw every widget at most once and that contains no terminal FocusIn. -/
+/-- A history whose trees draw every widget at most once. -/
 def StepDistinct : Step → Prop
-  | .ev e => e ≠ .focusIn
+  | .ev _ => True
   | .frame t1 t2 => (ids t1).Nodup ∧ (ids t2).Nodup
 
 theorem StepOk.of_distinct {st : Step} (h : StepDistinct st) : StepOk st := by
   cases st with
-  | ev e => exact h
+  | ev e => trivial
   | frame t1 t2 =>
     exact ⟨hitsNodup_of_ids t1 h.1, hitsNodup_sortTree t1 h.1, hitsNodup_sortTree t2 h.2⟩
 
